@@ -25,3 +25,26 @@ Theorem C20_failed_stream_refuses_graphs_and_namespaces :
     stream_graph g ts s = (s, [Raise JAssertion], false) /\ namespace_declaration n i s = (s, Err JAssertion).
 Proof. exact failed_stream_refuses_all. Qed.
 Print Assumptions C20_failed_stream_refuses_graphs_and_namespaces.
+
+From PJ.Model Require Import Spec.
+From PJ.Proofs Require Import FlowProofs EncStream EncPoison.
+
+(* Over whole runs, every statement sequence, every position and cause of rejection: a stream driven
+   statement by statement with catch-and-continue writes -- frames handed out plus what a final
+   flush takes from the flow -- a stream the referee accepts and that denotes EXACTLY the
+   statements accepted before the first rejection; everything after is refused without a trace. *)
+Theorem C20_catch_and_continue_triples :
+  forall (o : soptions) (s : stream) (stmts : list (list term)),
+    stream_new TripleStream Generic o = Ok s -> cfg_ok o (st_logical s) -> fl_rows (st_flow s) = [] ->
+    let '(s', evs) := drive stream_triple stmts (enroll s) in
+    run (emitted_rows evs ++ fl_rows (st_flow s')) = Valid (flat_map event_of_triple (accepted stream_triple stmts (enroll s))).
+Proof. exact catch_and_continue_triples. Qed.
+Print Assumptions C20_catch_and_continue_triples.
+
+Theorem C20_catch_and_continue_quads :
+  forall (o : soptions) (s : stream) (stmts : list (list term)),
+    stream_new QuadStream Generic o = Ok s -> cfg_ok o (st_logical s) -> fl_rows (st_flow s) = [] ->
+    let '(s', evs) := drive stream_quad stmts (enroll s) in
+    run (emitted_rows evs ++ fl_rows (st_flow s')) = Valid (flat_map event_of_quad (accepted stream_quad stmts (enroll s))).
+Proof. exact catch_and_continue_quads. Qed.
+Print Assumptions C20_catch_and_continue_quads.
